@@ -50,8 +50,8 @@ open_(SOLVE, r'(netlib\.)?(cert\.|reuse\.|resolve\.|.*\.resume\.|.*wrong-verdict
       repro='./vcheck C01 (any seed): keys C01:cert.slack:{...solution_polishing=...}')
 open_(SOLVE + ['C14'], r'crash:.*SPxWeightST::generate\|SPxSolverBase::solve.*',
       'SPxWeightST::generate reads out of bounds for an LP without rows (starter=weight, row representation)', regex=True)
-open_(['C01'], r'cert\.(slack|redcost):\{\}\+needs\{simplifier\}',
-      'default configuration: after the simplifier removed rows/columns the postsolved slack / reduced cost of a removed row/column can be wrong although x and the objective are right', regex=True)
+open_(['C01'], r'cert\.redcost:\{\}\+needs\{simplifier\}',
+      'default configuration: reduced cost != c - A^T y after presolve (dual postsolve of an aggregation whose basis status was swapped; same root cause as the C08 Aggregation finding); x, slacks and objective are right', regex=True)
 open_(['C04', 'C06', 'C16', 'C14'], r'(reuse\.[a-z\-]+|resolve\.status|[a-z]+\.resume|objlimit\.harmless-changes-status|state\.resolve-status)\.' + UND + r':.*',
       'warm-started / resumed solves occasionally end undecided (ABORT_CYCLING, or RUNNING/UNKNOWN after an internal exception such as XLEAVE04) where a solve from scratch decides', regex=True)
 open_(['C06'], r'resolve\.status\.OPTIMAL:.*',
